@@ -29,7 +29,7 @@ Variable m : mdp R.
    proper MDP definition; masked rows are all-zero, hence "sub-stochastic" *)
 Record wf : Prop := {
   wf_gamma0 : 0 <= gamma m;
-  wf_gamma1 : gamma m < 1;
+  wf_gamma1 : gamma m <= 1;
   wf_Pnn : forall s a ns, (s < nS m)%nat -> (a < nA m)%nat -> (ns < nS m)%nat -> 0 <= Pm m s a ns;
   wf_Psub : forall s a, (s < nS m)%nat -> (a < nA m)%nat -> sumf (nS m) (Pm m s a) <= 1;
   wf_act : forall s, (s < nS m)%nat -> exists a, (a < nA m)%nat /\ avail m s a = true
@@ -101,32 +101,32 @@ Definition fixpoint (Vs : nat -> R) : Prop :=
 (* residual bound: the statement behind "up to the bound implied by the
    configured residual" *)
 Theorem residual_bound V Vs delta :
-  wf -> fixpoint Vs -> 0 <= delta ->
+  wf -> gamma m < 1 -> fixpoint Vs -> 0 <= delta ->
   (forall s, (s < nS m)%nat -> Rabs (V s - Top V s) <= delta) ->
   forall s, (s < nS m)%nat -> Rabs (V s - Vs s) <= delta / (1 - gamma m).
 Proof.
-  intros Wf Hfix Hd0 Hres.
-  pose proof (wf_gamma0 Wf) as G0. pose proof (wf_gamma1 Wf) as G1.
+  intros Wf G1 Hfix Hd0 Hres.
+  pose proof (wf_gamma0 Wf) as G0.
   destruct (finite_sup (nS m) (fun s => V s - Vs s)) as (D & HD0 & HDle & HDat).
   assert (HD : D <= delta / (1 - gamma m)).
   { destruct HDat as [->|(i & Hi & He)].
     - apply Rmult_le_pos; [lra|]. left. apply Rinv_0_lt_compat. lra.
-    - assert (H1 : D <= delta + gamma m * D).
-      { rewrite <- He.
-        replace (V i - Vs i) with ((V i - Top V i) + (Top V i - Top Vs i))
-          by (rewrite (Hfix i Hi) at 1; lra).
-        eapply Rle_trans; [apply Rabs_triang|].
-        apply Rplus_le_compat; [apply Hres; auto|].
-        rewrite He. apply Top_contraction; auto. }
+    - cbv beta in He.
+      assert (H1 : D <= delta + gamma m * D).
+      { assert (Hc : Rabs (Top V i - Top Vs i) <= gamma m * D)
+          by (apply Top_contraction; auto).
+        pose proof (Hres i Hi) as Hr. pose proof (Hfix i Hi) as Hf.
+        apply Rabs_le_inv' in Hc. apply Rabs_le_inv' in Hr.
+        rewrite <- He at 1. apply Rabs_le. lra. }
       apply Rmult_le_reg_r with (1 - gamma m); [lra|].
       unfold Rdiv. rewrite Rmult_assoc, Rinv_l; lra. }
   intros s Hs. eapply Rle_trans; [apply HDle; auto|exact HD].
 Qed.
 
 Corollary fixpoint_unique V1 V2 :
-  wf -> fixpoint V1 -> fixpoint V2 -> forall s, (s < nS m)%nat -> V1 s = V2 s.
+  wf -> gamma m < 1 -> fixpoint V1 -> fixpoint V2 -> forall s, (s < nS m)%nat -> V1 s = V2 s.
 Proof.
-  intros Wf H1 H2 s Hs.
+  intros Wf G1 H1 H2 s Hs.
   assert (H : Rabs (V1 s - V2 s) <= 0 / (1 - gamma m)).
   { apply residual_bound; auto; [lra|]. intros s' Hs'. rewrite <- (H1 s' Hs').
     replace (V1 s' - V1 s') with 0 by lra. rewrite Rabs_R0; lra. }
@@ -145,44 +145,147 @@ Proof.
   intros Wf Hfix H s Hs. rewrite (Hfix s Hs). apply Top_mono; auto.
 Qed.
 
-Theorem supersolution_upper V Vs :
-  wf -> fixpoint Vs -> (forall s, (s < nS m)%nat -> Top V s <= V s) ->
-  forall s, (s < nS m)%nat -> Vs s <= V s.
+(* generic "D <= c + gamma D  at the arg-sup" argument, one-sided *)
+Lemma sup_pos_part_zero (f : nat -> R) :
+  wf -> gamma m < 1 ->
+  (forall D, 0 <= D -> (forall s, (s < nS m)%nat -> f s <= D) ->
+     forall i, (i < nS m)%nat -> f i = D -> 0 < D -> D <= gamma m * D) ->
+  forall s, (s < nS m)%nat -> f s <= 0.
 Proof.
-  intros Wf Hfix Hsup.
-  pose proof (wf_gamma0 Wf) as G0. pose proof (wf_gamma1 Wf) as G1.
-  (* D = max (Vs - V)^+ ; show D <= gamma D *)
-  destruct (finite_sup (nS m) (fun s => Rmax 0 (Vs s - V s))) as (D & HD0 & HDle & HDat).
+  intros Wf G1 Hstep.
+  pose proof (wf_gamma0 Wf) as G0.
+  destruct (finite_sup (nS m) (fun s => Rmax 0 (f s))) as (D & HD0 & HDle & HDat).
+  assert (Hpos : forall s, (s < nS m)%nat -> f s <= D).
+  { intros s Hs. specialize (HDle s Hs). rewrite Rabs_right in HDle.
+    - eapply Rle_trans; [apply Rmax_r|exact HDle].
+    - apply Rle_ge, Rmax_l. }
   assert (HDz : D = 0).
   { destruct HDat as [|(i & Hi & He)]; [auto|].
-    assert (Hpos : forall s, (s < nS m)%nat -> Vs s - V s <= D).
-    { intros s Hs. specialize (HDle s Hs). rewrite Rabs_right in HDle.
-      - eapply Rle_trans; [apply Rmax_r|exact HDle].
-      - apply Rle_ge, Rmax_l. }
     rewrite Rabs_right in He by (apply Rle_ge, Rmax_l).
-    destruct (Rle_dec (Vs i - V i) 0) as [Hle|Hgt].
+    destruct (Rle_dec (f i) 0) as [Hle|Hgt].
     { rewrite Rmax_left in He; lra. }
     rewrite Rmax_right in He by lra.
-    (* Vs i = Top Vs i <= Top (V + D) i <= Top V i + gamma D <= V i + gamma D *)
-    assert (H1 : Top Vs i <= Top V i + gamma m * D).
-    { assert (Hc := Top_contraction (fun s => Rmin (Vs s) (V s + D)) V D Wf HD0).
-      assert (Hmin : forall ns, (ns < nS m)%nat -> Rmin (Vs ns) (V ns + D) = Vs ns).
-      { intros ns Hns. apply Rmin_left. specialize (Hpos ns Hns). lra. }
-      assert (Heq : Top (fun s => Rmin (Vs s) (V s + D)) i = Top Vs i).
-      { unfold Top, backup. f_equal. apply maxf_ext; auto. intros a Ha _.
-        rewrite !Qval_R. f_equal. f_equal. apply sumf_ext. intros ns Hns.
-        now rewrite Hmin. }
-      rewrite <- Heq.
-      assert (Hd : forall ns, (ns < nS m)%nat ->
-                 Rabs (Rmin (Vs ns) (V ns + D) - V ns) <= D).
-      { intros ns Hns. rewrite Hmin by auto. specialize (HDle ns Hns).
-        (* need two-sided: |Vs - V| could exceed D on the negative side *)
-        admit. }
-      admit. }
-    admit. }
-  intros s Hs. specialize (HDle s Hs). rewrite HDz in HDle.
-  rewrite Rabs_right in HDle by (apply Rle_ge, Rmax_l).
-  pose proof (Rmax_r 0 (Vs s - V s)). lra.
-Admitted.
+    assert (D <= gamma m * D) by (apply (Hstep D HD0 Hpos i Hi He); lra).
+    assert (0 <= (1 - gamma m) * D) by (apply Rmult_le_pos; lra). nra. }
+  intros s Hs. specialize (Hpos s Hs). lra.
+Qed.
+
+Theorem supersolution_upper V Vs :
+  wf -> gamma m < 1 -> fixpoint Vs -> (forall s, (s < nS m)%nat -> Top V s <= V s) ->
+  forall s, (s < nS m)%nat -> Vs s <= V s.
+Proof.
+  intros Wf G1 Hfix Hsup s Hs.
+  pose proof (wf_gamma0 Wf) as G0.
+  cut (Vs s - V s <= 0); [lra|].
+  apply (sup_pos_part_zero (fun s => Vs s - V s) Wf G1); auto.
+  intros D HD0 Hpos i Hi He HDpos.
+  set (W := fun s => V s + D).
+  assert (H1 : Top Vs i <= Top W i).
+  { apply Top_mono; auto. intros ns Hns. unfold W. specialize (Hpos ns Hns). lra. }
+  assert (H2 : Rabs (Top W i - Top V i) <= gamma m * D).
+  { apply Top_contraction; auto. intros ns Hns. unfold W.
+    replace (V ns + D - V ns) with D by lra. rewrite Rabs_right; lra. }
+  apply Rabs_le_inv' in H2. specialize (Hsup i Hi). rewrite <- (Hfix i Hi) in H1. lra.
+Qed.
+
+Theorem subsolution_lower V Vs :
+  wf -> gamma m < 1 -> fixpoint Vs -> (forall s, (s < nS m)%nat -> V s <= Top V s) ->
+  forall s, (s < nS m)%nat -> V s <= Vs s.
+Proof.
+  intros Wf G1 Hfix Hsub s Hs.
+  pose proof (wf_gamma0 Wf) as G0.
+  cut (V s - Vs s <= 0); [lra|].
+  apply (sup_pos_part_zero (fun s => V s - Vs s) Wf G1); auto.
+  intros D HD0 Hpos i Hi He HDpos.
+  set (W := fun s => Vs s + D).
+  assert (H1 : Top V i <= Top W i).
+  { apply Top_mono; auto. intros ns Hns. unfold W. specialize (Hpos ns Hns). lra. }
+  assert (H2 : Rabs (Top W i - Top Vs i) <= gamma m * D).
+  { apply Top_contraction; auto. intros ns Hns. unfold W.
+    replace (Vs ns + D - Vs ns) with D by lra. rewrite Rabs_right; lra. }
+  apply Rabs_le_inv' in H2. specialize (Hsub i Hi). rewrite <- (Hfix i Hi) in H2. lra.
+Qed.
+
+(* ------------------------------------------------------------------ *)
+(* policy operator  T^pi V s = sum_a pi s a * Qval V s a               *)
+(* ------------------------------------------------------------------ *)
+Definition Tpol (pi : nat -> nat -> R) (V : nat -> R) (s : nat) : R := Qpol m pi V s.
+
+(* pi is a stochastic policy supported on available actions *)
+Record wfpol (pi : nat -> nat -> R) : Prop := {
+  wp_nn : forall s a, (s < nS m)%nat -> (a < nA m)%nat -> 0 <= pi s a;
+  wp_sum : forall s, (s < nS m)%nat -> sumf (nA m) (pi s) = 1;
+  wp_av : forall s a, (s < nS m)%nat -> (a < nA m)%nat -> avail m s a = false -> pi s a = 0
+}.
+
+Lemma Tpol_diff pi V W d :
+  wf -> wfpol pi -> 0 <= d ->
+  (forall ns, (ns < nS m)%nat -> Rabs (V ns - W ns) <= d) ->
+  forall s, (s < nS m)%nat -> Rabs (Tpol pi V s - Tpol pi W s) <= gamma m * d.
+Proof.
+  intros Wf Wp Hd0 Hd s Hs. unfold Tpol, Qpol.
+  change (Rabs (sumf (nA m) (fun a => pi s a * Qval m V s a)
+                - sumf (nA m) (fun a => pi s a * Qval m W s a)) <= gamma m * d).
+  eapply Rle_trans.
+  - apply wsum_diff_bound with (d := gamma m * d).
+    + intros a Ha. apply (wp_nn _ Wp); auto.
+    + intros a Ha. apply Qval_diff; auto.
+  - rewrite (wp_sum _ Wp s Hs). lra.
+Qed.
+
+Lemma Tpol_le_Top pi V s :
+  wf -> wfpol pi -> (s < nS m)%nat -> Tpol pi V s <= Top V s.
+Proof.
+  intros Wf Wp Hs. unfold Tpol, Qpol.
+  change (sumf (nA m) (fun a => pi s a * Qval m V s a) <= Top V s).
+  pose proof (backup_some V s Wf Hs) as Hb. unfold backup in Hb.
+  (* sum_a pi a * q a <= sum_a pi a * top = top *)
+  eapply Rle_trans.
+  - apply (sumf_le (nA m) _ (fun a => pi s a * Top V s)). intros a Ha. cbv beta.
+    destruct (avail m s a) eqn:E.
+    + apply Rmult_le_compat_l; [apply (wp_nn _ Wp); auto|].
+      eapply maxf_ge; eauto.
+    + rewrite (wp_av _ Wp s a Hs Ha E). lra.
+  - rewrite sumf_scal_r, (wp_sum _ Wp s Hs). lra.
+Qed.
+
+Definition fixpol pi (V : nat -> R) : Prop :=
+  forall s, (s < nS m)%nat -> V s = Tpol pi V s.
+
+(* eta-greedy policies lose at most eta/(1-gamma):
+   if pi only plays actions whose optimal action value is within eta of the optimum ... *)
+Theorem greedy_loss pi Vs Vpi eta :
+  wf -> gamma m < 1 -> wfpol pi -> fixpoint Vs -> fixpol pi Vpi -> 0 <= eta ->
+  (forall s a, (s < nS m)%nat -> (a < nA m)%nat -> 0 < pi s a -> Vs s - eta <= Qval m Vs s a) ->
+  forall s, (s < nS m)%nat -> Rabs (Vpi s - Vs s) <= eta / (1 - gamma m).
+Proof.
+  intros Wf G1 Wp Hfix Hfp He Hgr.
+  pose proof (wf_gamma0 Wf) as G0.
+  (* |Vs - Tpol Vs| <= eta *)
+  assert (Hres : forall s, (s < nS m)%nat -> Rabs (Vs s - Tpol pi Vs s) <= eta).
+  { intros s Hs. apply Rabs_le. split.
+    - pose proof (Tpol_le_Top pi Vs s Wf Wp Hs). rewrite <- (Hfix s Hs) in H. lra.
+    - (* Tpol Vs >= sum pi (Vs - eta) = Vs - eta *)
+      assert (H : sumf (nA m) (fun a => pi s a * (Vs s - eta)) <= Tpol pi Vs s).
+      { unfold Tpol, Qpol. apply sumf_le. intros a Ha. cbv beta.
+        destruct (Rle_lt_or_eq_dec 0 (pi s a) (wp_nn _ Wp s a Hs Ha)) as [Hp|Hz].
+        - apply Rmult_le_compat_l; [lra|]. apply Hgr; auto.
+        - rewrite <- Hz. change (0 * (Vs s - eta) <= 0 * Qval m Vs s a). lra. }
+      rewrite sumf_scal_r, (wp_sum _ Wp s Hs) in H. lra. }
+  destruct (finite_sup (nS m) (fun s => Vpi s - Vs s)) as (D & HD0 & HDle & HDat).
+  assert (HD : D <= eta / (1 - gamma m)).
+  { destruct HDat as [->|(i & Hi & Hei)].
+    - apply Rmult_le_pos; [lra|]. left. apply Rinv_0_lt_compat. lra.
+    - cbv beta in Hei.
+      assert (Hc : Rabs (Tpol pi Vpi i - Tpol pi Vs i) <= gamma m * D)
+        by (apply Tpol_diff; auto).
+      pose proof (Hres i Hi) as Hr. pose proof (Hfp i Hi) as Hf.
+      apply Rabs_le_inv' in Hc. apply Rabs_le_inv' in Hr.
+      assert (H1 : D <= eta + gamma m * D).
+      { rewrite <- Hei at 1. apply Rabs_le. lra. }
+      apply Rmult_le_reg_r with (1 - gamma m); [lra|].
+      unfold Rdiv. rewrite Rmult_assoc, Rinv_l; lra. }
+  intros s Hs. eapply Rle_trans; [apply HDle; auto|exact HD].
+Qed.
 
 End Theory.
